@@ -337,7 +337,7 @@ class EngineVsStatement(Bounded):
                         delays=[(str(b), str(v)) for b, v in tl.delays], warps=[(str(b), str(v)) for b, v in tl.warps], offset=str(tl.offset))
 
         import itertools as _it
-        generic = list(TL.generic_configurations(tier)) if self.part == 0 else []
+        generic = [c for gi, c in enumerate(TL.generic_configurations(tier)) if gi % self.PARTS == self.part]
         for idx, tl in enumerate(_it.chain(generic, TL.configurations(tier))):
             is_generic = idx < len(generic)
             if not is_generic and (idx - len(generic)) % self.PARTS != self.part:
@@ -345,6 +345,8 @@ class EngineVsStatement(Bounded):
             eng = TL.real_engine(tl)
             bad = None
             ps = TL.probes(tier)
+            if is_generic:
+                ps = [F(n_, 48) for n_ in range(-48, 48 * 10 + 1)]       # every tick: values off the binary grid
             if self.what == "time_at":
                 prev = None
                 for b in ps:
@@ -373,7 +375,7 @@ class EngineVsStatement(Bounded):
                     if abs(F(float(e3.time_at(Beat(b)))) - F(float(eng.time_at(Beat(b))))) > tol:
                         bad = f"a BPM change repeating the BPM in force changes time_at({b})"
             elif self.what == "hittable":
-                for n4 in range(-4 * 48 // 12, 4 * 48 + 1, 4):
+                for n4 in (range(-4 * 48 // 12, 4 * 48 + 1, 4) if not is_generic else range(-16, 48 * 6 + 1)):
                     b = F(n4, 48)
                     cases += 1
                     if eng.hittable(Beat(b)) != tl.hittable(b):
@@ -384,8 +386,6 @@ class EngineVsStatement(Bounded):
                 e3 = TL.real_engine(tl3)
                 prev = None
                 times = []
-                if is_generic:
-                    ps = [F(n_, 48) for n_ in range(0, 48 * 10 + 1)]
                 for b in ps:
                     for tag in TL.TAGS:
                         times.append(tl.time_at(b, tag))
@@ -708,6 +708,8 @@ class RetimeEvents(Unit):
             x = obj.at(ex, k)
             v, tg_ = key_of(states, k, what)
             ok = isinstance(x, tuple) and len(x) == 2 and (isinstance(x[1], e.EventTag) or (is_sym(x[1]) and x[1].ty.kind in ("int", "ienum")))
+            if ok and what == "beat" and is_sym(x[0]) and x[0].ty is FLOAT:
+                ok = False      # a float conversion of the beat is not the beat: Python compares Fraction and float exactly (outside A-FLOAT)
             parts.append(z3.And(obj.length == n, z3.Implies(z3.And(k >= 0, k < n), z3.And(coerce(x[0], FRAC).t == v, term(x[1], INT) == tg_))) if ok else z3.BoolVal(False))
         if isinstance(ts, SM.LazyList):
             x = ts.at(ex, k)
